@@ -17,16 +17,98 @@ import prims_common as pc
 import serial_common as sc
 
 
+def gen_cache_scripts(ck, n):
+    """op scripts: insert / clear() / clear(key) / insert on a small key pool (so that slots collide,
+    keys are re-inserted after a clear, cleared keys stay absent)"""
+    rnd = ck.rng
+    ext = ["7fefffffffffffff", "ffefffffffffffff", "0000000000000001", "8000000000000000", "3ff0000000000000",
+           "c08f400000000000", "0010000000000000"]
+
+    def fit():
+        return ",".join(rnd.choice(ext) if rnd.random() < 0.4 else "%016x" % (rnd.getrandbits(62) | (rnd.getrandbits(1) << 63))
+                        for _ in range(rnd.randint(1, 3)))
+    scripts = [
+        (4, ["I,11,22,3ff0000000000000", "C"]),                                        # insert, clear
+        (4, ["I,11,22,3ff0000000000000", "C", "I,12,23,4000000000000000"]),             # ... insert more
+        (4, ["I,11,22,3ff0000000000000", "I,12,23,4000000000000000", "X,11,22"]),       # clear one
+        (3, ["I,1,1,3ff0000000000000", "C", "C", "I,9,1,4000000000000000", "I,2,5,c000000000000000"]),
+    ]
+    for _ in range(n):
+        bits = rnd.choice([2, 3, 4, 6])
+        pool = [(rnd.randint(1, 40), rnd.randint(0, 5)) for _ in range(rnd.randint(2, 12))]
+        ops = []
+        for _ in range(rnd.randint(1, 25)):
+            r = rnd.random()
+            k = rnd.choice(pool)
+            if r < 0.6:
+                ops.append("I,%x,%x,%s" % (k[0], k[1], fit()))
+            elif r < 0.8:
+                ops.append("C")
+            else:
+                ops.append("X,%x,%x" % k)
+        scripts.append((bits, ops))
+    return scripts
+
+
+def cache_family(ck, harness, hist):
+    if ck.replay_path:
+        rp = json.load(open(ck.replay_path))
+        scripts = [(rp["bits"], rp["ops"])] if "ops" in rp else []
+    else:
+        scripts = gen_cache_scripts(ck, 3000 if ck.thorough else 300)
+    if not scripts:
+        return
+    lines = ["CACHE %d %s" % (b, " ".join(ops)) for b, ops in scripts]
+    out, crashes = sc.run_harness_chunks(harness, lines)
+    for i, (bits, ops) in enumerate(scripts):
+        ck.count()
+        hist["CACHE"] = hist.get("CACHE", 0) + 1
+        ho = out[i]
+        replay = {"bits": bits, "ops": ops, "harness_line": lines[i], "impl": (ho or "")[:2000]}
+        if ho is None or ho.startswith("CRASH") or ho.startswith("EXC"):
+            replay["sanitizer"] = crashes.get(i, "")[-2500:]
+            ck.add_violation("CACHE:save-load-crash", "cache script %s: save/load crashes: %s" % (" ".join(ops)[:120], (ho or "")[:60]), replay)
+            continue
+        f = sc.fields(ho)
+        if f[0] != "OK" or len(f) < 5:
+            ck.add_diff({"bits": bits, "ops": ops}, "", ho, "harness protocol")
+            continue
+        ret, save0, save1 = f[1:4]
+        w = f[4].split()
+        n = int(w[0])
+        if "C" in ops or any(o.startswith("X") for o in ops):
+            ck.nontriv(("CACHE", bits, tuple(ops)))
+        problems = []
+        if ret != "1":
+            problems.append("load of the saved cache into a fresh cache fails")
+        else:
+            for j in range(n):
+                k0, k1, a, b = w[1 + 4 * j: 5 + 4 * j]
+                if a != b:
+                    problems.append("key (%s,%s): original cache answers %s, reloaded cache answers %s"
+                                    % (k0.lstrip("0") or "0", k1.lstrip("0") or "0",
+                                       "not found" if a == "-" else a, "not found" if b == "-" else b))
+            if save1 != save0:
+                problems.append("saving the reloaded cache yields different bytes")
+        if problems:
+            replay.update({"problems": problems[:6], "save": sc.unhex(save0).decode("latin1")[:1500]})
+            ck.add_violation("CACHE:lookups-differ-after-reload",
+                             "cache script [%s] (2^%d slots): %s" % (" ".join(ops)[:200], bits, "; ".join(problems[:3])), replay)
+        if i < 2:
+            ck.sample({"cache_script": ops, "bits": bits, "keys_compared": n, "reload_ok": ret})
+
+
 def run(ck):
     harness, model = sc.build()
     ck.add_proof(vv.prove("Properties_C11", set()))
     ck.add_proof(vv.prove("Refuted_C11", set()))
+    ck.add_proof(vv.prove("CacheCorollary_C11", set()))
     ck.trusted += sc.TRUSTED
     ck.assumptions += sc.ASSUMPTIONS
 
     if ck.replay_path:
         rp = json.load(open(ck.replay_path))
-        cases = [tuple(c) for c in rp.get("cases", [])] or [tuple(rp["case"])]
+        cases = [tuple(c) for c in rp.get("cases", [])] or ([tuple(rp["case"])] if "case" in rp else [])
     else:
         cases = sc.gen_objects(ck, 120 if ck.thorough else 14)
 
@@ -104,9 +186,13 @@ def run(ck):
         if mload.get(i) != want and ret == "1":
             ck.add_diff({"case": list(c), "what": "load"}, (mload.get(i) or "")[:400], want[:400],
                         "model and implementation load differently")
+    # ---- the fitness cache (also after clears): identical lookups for EVERY key ever used
+    cache_family(ck, harness, hist)
     ck.coverage["per_type"] = hist
     return ck.finish(
         rule="objects of 15 persistable types (hash, fitness, i_mep over 1- and 2-category symbol sets, i_ga, i_de, team, "
              "populations and summaries of each, distribution, matrix) built on the real library by seeded histories of "
              "0..30 operator steps (mutation, crossover, ageing, layer add/remove/shrink, extreme finite constants); "
-             "non-trivial = history of >= 3 steps (or any hash/fitness); distinct = distinct (type, object dump)")
+             "non-trivial = history of >= 3 steps (or any hash/fitness); distinct = distinct (type, object dump); "
+             "plus fitness-cache scripts (insert / clear() / clear(key) / insert on colliding key pools): save, load into a "
+             "fresh cache, every key ever used looked up in both, save(load(save)); non-trivial = script with a clear")
